@@ -114,7 +114,29 @@ def gen_ranges(rng):
         if names and rng.random() < 0.4:
             p['deformation_name'] = names[0]
         ems.append(p)
+    # parameter sets that differ only where a display label does not look:
+    # deformation_kwargs, or a direction differing beyond the 4th decimal
+    if names and rng.random() < 0.35:
+        base = dict(ems[0])
+        base['deformation_name'] = names[0]
+        axes = ['x', 'y'] if fam.dimension(cls) == 2 else ['x', 'y', 'z']
+        import inspect
+        if 'deformation_axis' in inspect.signature(
+                fam.get_class(cls).get_deformation).parameters:
+            ems = [dict(base, deformation_kwargs={'deformation_axis': a})
+                   for a in axes[:int(rng.integers(2, len(axes) + 1))]]
+            if rng.random() < 0.5:
+                ems.append(dict(base))
+    elif rng.random() < 0.2:
+        base = dict(ems[0])
+        tw = dict(base)
+        tw['r_x'] = round(base['r_x'] + 2e-6, 9)
+        tw['r_z'] = round(1 - tw['r_x'] - tw['r_y'], 9)
+        if tw['r_z'] >= 0:
+            ems = [base, tw]
     em_form = str(rng.choice(['dict', 'list', 'positional']))
+    if any('deformation_kwargs' in e for e in ems) and em_form != 'list':
+        em_form = 'list'
     if em_form == 'dict':
         ems = ems[:1]
         em_params = ems[0]
@@ -166,7 +188,8 @@ def full_size(cls, s):
 
 def expected_tuple(cls, size, em, dname, dparams, rate):
     return (cls, full_size(cls, size),
-            (em['r_x'], em['r_y'], em['r_z'], em.get('deformation_name')),
+            (em['r_x'], em['r_y'], em['r_z'], em.get('deformation_name'),
+             repr(sorted((em.get('deformation_kwargs') or {}).items()))),
             dname, tuple(sorted((k, repr(v)) for k, v in dparams.items())),
             rate)
 
@@ -175,7 +198,10 @@ def observed_tuple(sim, given_keys):
     em = sim.error_model
     dp = sim.decoder.params
     return (type(sim.code).__name__, tuple(sim.code.size),
-            tuple(em.direction) + (em.params['deformation_name'],),
+            tuple(em.direction) + (
+                em.params['deformation_name'],
+                repr(sorted((em.params.get('deformation_kwargs')
+                             or {}).items()))),
             type(sim.decoder).__name__,
             tuple(sorted((k, repr(dp[k])) for k in given_keys if k in dp)),
             sim.error_rate)
@@ -219,7 +245,7 @@ def check_spec(out, spec, ref, desc, mech, ref_dec_keys):
     # keys not given are projected away on both sides
     def project(t, keys):
         c, s, e, d, dp, r = t
-        return (c, s, tuple(round(x, 9) if isinstance(x, float) else x
+        return (c, s, tuple(round(x, 12) if isinstance(x, float) else x
                             for x in e), d,
                 tuple(kv for kv in dp if kv[0] in keys), round(r, 12))
     # group expected by given-key set
@@ -462,6 +488,8 @@ def run_specs(task, out):
                     emp = {'r_x': e[0], 'r_y': e[1], 'r_z': e[2]}
                     if e[3]:
                         emp['deformation_name'] = e[3]
+                    if e[4] != '[]':
+                        emp['deformation_kwargs'] = dict(eval(e[4]))
                     run = {'code': {'name': c,
                                     'parameters': dict(zip(keys, s))},
                            'error_model': {'name': 'PauliErrorModel',
